@@ -296,6 +296,13 @@ func poolConfigs(prop string, thorough bool) (cfgs []poolCfg, depth int) {
 				}
 			}
 		}
+		// keyed calls on superseded pickers (a stale READY snapshot must not choose the stand-in)
+		sp := poolCfg{Name: "C08 pool=3 stale-pickers", Min: 3, Max: 3, WM: 100, Fallback: true,
+			Setup: append(readyPool(3), "pick(bind,,L,g)", "done(0,ok:k1)")}
+		sp.A = alphabet{States: "basic", Cmds: []string{"bound", "plain"}, Keys: []string{"k1"}, Gens: []string{"L", "P", "O"},
+			Ctx: []string{"g"}, Done: []string{"ok"}, MaxOpen: 2, MaxSC: 4}
+		sp.Depth = 5
+		add(sp)
 		// re-binding during a fallback episode: three channels, BIND/UNBIND in the alphabet,
 		// root: key bound to channel 0, channel 0 down, stand-in established
 		rb := poolCfg{Name: "C08 pool=3 rebind root=standin", Min: 3, Max: 3, WM: 100, Fallback: true,
@@ -339,6 +346,13 @@ func poolConfigs(prop string, thorough bool) (cfgs []poolCfg, depth int) {
 				Ctx: []string{"g,d1"}, Done: []string{"ok", "cde"}, Adv: []int{2}, MaxOpen: 2, MaxSC: 4}
 			add(c)
 		}
+		// address lists that differ only by order / per-address metadata
+		so := poolCfg{Name: "C20 min=2 max=2 same-backends", Min: 2, Max: 2, WM: 100, RefCalls: 1, RefMs: 1,
+			Setup: []string{"resolve(a1+a2)", "state(0,CONNECTING)", "state(0,READY)", "state(1,CONNECTING)", "state(1,READY)"}}
+		so.A = alphabet{Resolve: []string{"a1+a2", "a2+a1", "a1/s+a2"}, States: "basic", Cmds: []string{"plain"}, Gens: []string{"L"},
+			Ctx: []string{"g,d1"}, Done: []string{"cde"}, Adv: []int{2}, MaxOpen: 1, MaxSC: 4}
+		so.Depth = 5
+		add(so)
 		// non-initial root: pool of one whose refresh is in flight
 		r := poolCfg{Name: "C20 min=1 max=1 root=refreshing", Min: 1, Max: 1, WM: 100, RefCalls: 1, RefMs: 1,
 			Setup: append(readyPool(1), "pick(plain,,L,g,d1)", "adv(2)", "done(0,cde)")}
